@@ -36,8 +36,12 @@ def _spellings(c, tier):
     return out
 
 
+DIR_NAMES = [("int", "data"), ("projects/run#3/full/internal", "projects/run#3/full/data"), ("teams/a b/é?x/int", "teams/a b/é?x/data;v1"), ("deep/er/store/int", "other/tree/data")]
+
+
 def commit_job(arg):
-    ctype, spelling, seq = arg
+    ctype, spelling, seq = arg[:3]
+    IDIR, DDIR = arg[3] if len(arg) > 3 else DIR_NAMES[0]
     import dds
     from dds.structures import DDSException
     from vp.fakedbutils import FakeDbutils
@@ -47,7 +51,7 @@ def commit_job(arg):
     with core.Scratch("vp_c19_") as root:
         dbu = FakeDbutils(root)
         try:
-            dds.set_store("dbfs", internal_dir="dbfs:/int", data_dir="dbfs:/data", dbutils=dbu, commit_type=spelling)
+            dds.set_store("dbfs", internal_dir="dbfs:/" + IDIR, data_dir="dbfs:/" + DDIR, dbutils=dbu, commit_type=spelling)
         except BaseException as e:
             rep.evaluations = 1
             rep.violate(
@@ -65,27 +69,27 @@ def commit_job(arg):
             try:
                 v = dds.keep(path, f, tag)
             except BaseException as e:
-                rep.violate("commit_type=%r: keep(%r, produce_%s, %r) raised %s: %s" % (spelling, path, fn, tag, type(e).__name__, str(e)[:150]), {"commit_type": spelling, "seq": seq}, mechanism="keep-raised")
+                rep.violate("commit_type=%r: keep(%r, produce_%s, %r) raised %s: %s" % (spelling, path, fn, tag, type(e).__name__, str(e)[:150]), {"commit_type": spelling, "seq": seq, "dirs": [IDIR, DDIR]}, mechanism="keep-raised")
                 continue
             rep.count("keeps")
             if not SM.values_equal(v, expected):
-                rep.violate("commit_type=%r: keep(%r) returned %r, expected %r" % (spelling, path, v, expected), {"commit_type": spelling, "seq": seq}, mechanism="keep-wrong-value")
+                rep.violate("commit_type=%r: keep(%r) returned %r, expected %r" % (spelling, path, v, expected), {"commit_type": spelling, "seq": seq, "dirs": [IDIR, DDIR]}, mechanism="keep-wrong-value")
             kept[path] = (expected, fn, tag)
             # a second keep of the same thing must be served (and equal)
             v2 = dds.keep(path, f, tag)
             if not SM.values_equal(v2, expected):
-                rep.violate("commit_type=%r: second keep(%r) returned %r" % (spelling, path, v2), {"commit_type": spelling, "seq": seq}, mechanism="keep-wrong-value")
+                rep.violate("commit_type=%r: second keep(%r) returned %r" % (spelling, path, v2), {"commit_type": spelling, "seq": seq, "dirs": [IDIR, DDIR]}, mechanism="keep-wrong-value")
             # --- files under the data directory
-            data = os.path.join(root, "dbfs", "data")
+            data = os.path.join(root, "dbfs", DDIR)
             tree = SM.walk(data)
             files = dict((k, v_) for k, v_ in tree.items() if v_[0] == "file")
             rep.count("tree_inspections")
             if ctype == "none":
                 if files:
-                    rep.violate("commit_type=%r wrote %r under the data directory" % (spelling, sorted(files)[:3]), {"commit_type": spelling, "seq": seq}, mechanism="none-commit-wrote-files")
+                    rep.violate("commit_type=%r wrote %r under the data directory" % (spelling, sorted(files)[:3]), {"commit_type": spelling, "seq": seq, "dirs": [IDIR, DDIR]}, mechanism="none-commit-wrote-files")
                 try:
                     dds.load(path)
-                    rep.violate("commit_type=%r: load(%r) succeeded although nothing is committed" % (spelling, path), {"commit_type": spelling, "seq": seq}, mechanism="none-commit-load")
+                    rep.violate("commit_type=%r: load(%r) succeeded although nothing is committed" % (spelling, path), {"commit_type": spelling, "seq": seq, "dirs": [IDIR, DDIR]}, mechanism="none-commit-load")
                 except (DDSException, Exception):
                     rep.count("none_commit_load_refused")
                 continue
@@ -93,31 +97,31 @@ def commit_job(arg):
                 rel = p2.lstrip("/")
                 rec = os.path.join(data, "_dds_meta", rel)
                 if not os.path.isfile(rec):
-                    rep.violate("commit_type=%r: no redirect record for %r" % (spelling, p2), {"commit_type": spelling, "seq": seq}, mechanism="record-missing")
+                    rep.violate("commit_type=%r: no redirect record for %r" % (spelling, p2), {"commit_type": spelling, "seq": seq, "dirs": [IDIR, DDIR]}, mechanism="record-missing")
                     continue
                 key = json.load(open(rec))["redirection_key"]
-                blob = os.path.join(root, "dbfs", "int", "blobs", key)
+                blob = os.path.join(root, "dbfs", IDIR, "blobs", key)
                 obj = os.path.join(data, rel)
                 if ctype == "full":
                     if not os.path.exists(obj):
-                        rep.violate("commit_type=%r: no copy of %r under the data directory" % (spelling, p2), {"commit_type": spelling, "seq": seq}, mechanism="full-copy-missing")
+                        rep.violate("commit_type=%r: no copy of %r under the data directory" % (spelling, p2), {"commit_type": spelling, "seq": seq, "dirs": [IDIR, DDIR]}, mechanism="full-copy-missing")
                     elif os.path.isfile(obj) and open(obj, "rb").read() != open(blob, "rb").read():
-                        rep.violate("commit_type=%r: copy of %r differs from its blob" % (spelling, p2), {"commit_type": spelling, "seq": seq}, mechanism="full-copy-differs")
+                        rep.violate("commit_type=%r: copy of %r differs from its blob" % (spelling, p2), {"commit_type": spelling, "seq": seq, "dirs": [IDIR, DDIR]}, mechanism="full-copy-differs")
                     else:
                         rep.count("full_copies_byte_identical")
                     if isinstance(exp2, str) and os.path.isfile(obj) and open(obj, "rb").read() != exp2.encode("utf-8"):
-                        rep.violate("commit_type=%r: copy of str result %r is not its UTF-8 text" % (spelling, p2), {"commit_type": spelling, "seq": seq}, mechanism="full-copy-differs")
+                        rep.violate("commit_type=%r: copy of str result %r is not its UTF-8 text" % (spelling, p2), {"commit_type": spelling, "seq": seq, "dirs": [IDIR, DDIR]}, mechanism="full-copy-differs")
                 else:
                     extra = [k for k in files if not k.startswith("_dds_meta")]
                     if extra:
-                        rep.violate("commit_type=%r wrote data files %r (links only expected)" % (spelling, extra[:3]), {"commit_type": spelling, "seq": seq}, mechanism="links-only-wrote-data")
+                        rep.violate("commit_type=%r wrote data files %r (links only expected)" % (spelling, extra[:3]), {"commit_type": spelling, "seq": seq, "dirs": [IDIR, DDIR]}, mechanism="links-only-wrote-data")
                 try:
                     lv = dds.load(p2)
                     rep.count("loads")
                     if not SM.values_equal(lv, exp2):
-                        rep.violate("commit_type=%r: load(%r) = %r, kept %r" % (spelling, p2, lv, exp2), {"commit_type": spelling, "seq": seq}, mechanism="load-wrong-value")
+                        rep.violate("commit_type=%r: load(%r) = %r, kept %r" % (spelling, p2, lv, exp2), {"commit_type": spelling, "seq": seq, "dirs": [IDIR, DDIR]}, mechanism="load-wrong-value")
                 except BaseException as e:
-                    rep.violate("commit_type=%r: load(%r) raised %s: %s" % (spelling, p2, type(e).__name__, str(e)[:100]), {"commit_type": spelling, "seq": seq}, mechanism="load-raised")
+                    rep.violate("commit_type=%r: load(%r) raised %s: %s" % (spelling, p2, type(e).__name__, str(e)[:100]), {"commit_type": spelling, "seq": seq, "dirs": [IDIR, DDIR]}, mechanism="load-raised")
         # one key under two paths, the first path already recorded by an earlier evaluation
         if ctype != "none":
             try:
@@ -126,20 +130,20 @@ def commit_job(arg):
                 rep.count("alias_evaluations")
                 exp = produce_a("str_ascii")
                 if r2 != (exp, exp):
-                    rep.violate("commit_type=%r: evaluation keeping one function under two paths returned %r" % (spelling, r2), {"commit_type": spelling, "seq": seq, "alias": True}, mechanism="keep-wrong-value")
+                    rep.violate("commit_type=%r: evaluation keeping one function under two paths returned %r" % (spelling, r2), {"commit_type": spelling, "seq": seq, "alias": True, "dirs": [IDIR, DDIR]}, mechanism="keep-wrong-value")
                 for ap in ("/alias/first", "/alias/second"):
-                    rec = os.path.join(root, "dbfs", "data", "_dds_meta", ap.lstrip("/"))
+                    rec = os.path.join(root, "dbfs", DDIR, "_dds_meta", ap.lstrip("/"))
                     if not os.path.isfile(rec):
-                        rep.violate("commit_type=%r: no redirect record for %r (same blob key as another path of the evaluation)" % (spelling, ap), {"commit_type": spelling, "seq": seq, "alias": True}, mechanism="record-missing")
+                        rep.violate("commit_type=%r: no redirect record for %r (same blob key as another path of the evaluation)" % (spelling, ap), {"commit_type": spelling, "seq": seq, "alias": True, "dirs": [IDIR, DDIR]}, mechanism="record-missing")
                         continue
-                    if ctype == "full" and not os.path.exists(os.path.join(root, "dbfs", "data", ap.lstrip("/"))):
-                        rep.violate("commit_type=%r: no copy of %r under the data directory" % (spelling, ap), {"commit_type": spelling, "seq": seq, "alias": True}, mechanism="full-copy-missing")
+                    if ctype == "full" and not os.path.exists(os.path.join(root, "dbfs", DDIR, ap.lstrip("/"))):
+                        rep.violate("commit_type=%r: no copy of %r under the data directory" % (spelling, ap), {"commit_type": spelling, "seq": seq, "alias": True, "dirs": [IDIR, DDIR]}, mechanism="full-copy-missing")
                     lv = dds.load(ap)
                     rep.count("loads")
                     if lv != exp:
-                        rep.violate("commit_type=%r: load(%r) = %r" % (spelling, ap, lv), {"commit_type": spelling, "seq": seq, "alias": True}, mechanism="load-wrong-value")
+                        rep.violate("commit_type=%r: load(%r) = %r" % (spelling, ap, lv), {"commit_type": spelling, "seq": seq, "alias": True, "dirs": [IDIR, DDIR]}, mechanism="load-wrong-value")
             except BaseException as e:
-                rep.violate("commit_type=%r: one function under two paths: %s: %s" % (spelling, type(e).__name__, str(e)[:150]), {"commit_type": spelling, "seq": seq, "alias": True}, mechanism="keep-raised")
+                rep.violate("commit_type=%r: one function under two paths: %s: %s" % (spelling, type(e).__name__, str(e)[:150]), {"commit_type": spelling, "seq": seq, "alias": True, "dirs": [IDIR, DDIR]}, mechanism="keep-raised")
         if len(kept) >= 2:
             rep.nontriv(("commit", spelling, repr(seq)))
     return rep
@@ -251,7 +255,7 @@ def run(tier, seed):
     rep = core.Report("C19")
     rng = core.rng_for(seed, "c19")
     rep.rule = (
-        "commit types: the documented names %r in lower/upper/capitalised form plus the default (None); per store a sequence of keeps (value types %r, "
+        "commit types: the documented names %r in lower/upper/capitalised form plus the default (None); store directories with plain names and names containing '#', '?', ';', spaces and non-ASCII letters; per store a sequence of keeps (value types %r, "
         "re-keeps of a path with changed code, nested paths) each followed by inspection of the fake dbutils' backing tree and loads of every path kept so far; "
         "legacy: each value kind (str/bytes/pickle) stored, its .meta rewritten to dbfs.string/dbfs.bytes/dbfs.pickle, read by a new store object; faults: one keep with a transient failure injected before each dbutils call in turn, then the same keep again (same or new store object). "
         "distinct_nontrivial = distinct (commit type spelling, keep sequence) runs with >=2 kept paths + distinct (value, legacy ref) reads."
@@ -273,7 +277,7 @@ def run(tier, seed):
                 seq.append((paths[0], "b", tags[0]))
                 seq.append((paths[1], "b", tags[1]))
                 seq.append((paths[0], "a", tags[0]))
-                jobs.append(("commit", ("full" if c == "default" else c, sp, seq)))
+                jobs.append(("commit", ("full" if c == "default" else c, sp, seq, DIR_NAMES[len(jobs) % len(DIR_NAMES)])))
     for tag, kind in (("str_ascii", "str"), ("str_nonascii", "str"), ("str_empty", "str"), ("bytes_plain", "bytes"), ("bytes_empty", "bytes"), ("bytes_all", "bytes"),
                       ("none", "pickle"), ("int", "pickle"), ("nested", "pickle"), ("obj", "pickle")):
         jobs.append(("legacy", (tag, kind)))
@@ -308,7 +312,7 @@ def replay(payload):
         sp = c["commit_type"]
         ct = (sp or "full").lower()
         seq = [tuple(x) for x in c.get("seq", [("/t/x", "a", "str_ascii")])]
-        rep.merge(commit_job((ct, sp, seq)))
+        rep.merge(commit_job((ct, sp, seq, tuple(c.get("dirs") or DIR_NAMES[0]))))
     else:
         rep.merge(legacy_job((c["tag"], c["kind"])))
     return rep
